@@ -210,7 +210,16 @@ static int compiler(const char *tool, int argc, char **argv) {
         else if (!strcmp(a, "-MF") && i + 1 < argc) mf = argv[++i];
         else if ((!strcmp(a, "-I") || !strcmp(a, "-isystem") || !strcmp(a, "-iquote")) && i + 1 < argc) { if (ninc < MAXF) incdirs[ninc++] = argv[++i]; }
         else if (!strncmp(a, "-I", 2) && a[2]) { if (ninc < MAXF) incdirs[ninc++] = a + 2; }
-        else if (!strcmp(a, "-include") && i + 1 < argc) { if (nin < MAXF) inputs[nin++] = argv[++i]; }
+        else if (!strcmp(a, "-include") && i + 1 < argc) {
+            /* like gcc: a precompiled X.gch is used in place of X (which need not exist then) */
+            static char gch[MAXF][4096]; static int ngch = 0;
+            const char *x = argv[++i];
+            if (access(x, F_OK) != 0 && ngch < MAXF && strlen(x) < 4000) {
+                snprintf(gch[ngch], sizeof gch[ngch], "%s.gch", x);
+                if (access(gch[ngch], F_OK) == 0) x = gch[ngch++];
+            }
+            if (nin < MAXF) inputs[nin++] = x;
+        }
         else if ((!strcmp(a, "-x") || !strcmp(a, "-MT") || !strcmp(a, "-MQ") || !strcmp(a, "-L") || !strcmp(a, "-l") || !strcmp(a, "-Xlinker") || !strcmp(a, "-e")) && i + 1 < argc) i++;
         else if (a[0] == '-') continue;
         else if (nin < MAXF) inputs[nin++] = a;
@@ -246,7 +255,12 @@ static int compiler(const char *tool, int argc, char **argv) {
             FILE *f = fopen(mf, "w");
             if (!f) { fprintf(stderr, "stub: cannot write %s\n", mf); return 1; }
             dep_escape(f, out); fputs(":", f);
-            for (int i = 0; i < nin; i++) { if (!exists(inputs[i])) continue; fputs(" ", f); dep_escape(f, inputs[i]); }
+            for (int i = 0; i < nin; i++) {
+                if (!exists(inputs[i])) continue;
+                size_t L = strlen(inputs[i]);
+                if (L > 4 && !strcmp(inputs[i] + L - 4, ".gch")) continue;   /* like gcc: a used .gch is not listed */
+                fputs(" ", f); dep_escape(f, inputs[i]);
+            }
             for (int i = 0; i < nhdr; i++) { fputs(" \\\n ", f); dep_escape(f, headers[i]); }
             fputs("\n", f);
             fclose(f);
